@@ -53,6 +53,17 @@ def gen_family(r, fam):
     if fam == "regdt":
         return SETUP_SMALL, [[["regdt", r.choice(["dx", "dt"]), r.randrange(2)]] + ([["regdt", "dy", 0]] if r.random() < 0.3 else [])
                              for _ in range(r.choice([2, 3]))]
+    if fam == "dimgroup":
+        # dataset types over dimension groups NEW to the repository: the first registration allocates the group's key
+        # (get-or-create arbitrated by lock + re-read only); at most one such call per client (its key cache is then warm)
+        grp = r.randrange(2)
+        ps = []
+        for _ in range(r.choice([2, 2, 3])):
+            p = [["regdtg", r.choice(["da", "db"]), grp if r.random() < 0.8 else 1 - grp, r.choice([0, 0, 1])]]
+            if r.random() < 0.4:
+                p.insert(r.randrange(2), r.choice([["regrun", "N"], ["regdt", "dx", 0], ["put", "r0", 1, v()]]))
+            ps.append(p)
+        return SETUP_SMALL, ps
     if fam == "put":
         run = r.choice(["r0", "r2", "r2"])
         ps = []
@@ -174,6 +185,8 @@ def c_op(nm, op):
         return f"{c} {cn(nm(op[1]))} {clist(cn(nm(x)) for x in op[2])}"
     if k == "regdt":
         return f"RegDT {cn(nm(op[1]))} {cn(op[2])}"
+    if k == "regdtg":
+        return f"RegDTG {cn(nm(op[1]))} {cn(op[3] + 2 * (op[2] + 1))}"
     raise ValueError(op)
 
 
@@ -190,6 +203,8 @@ FILE_RE = re.compile(r"^([^/]+)/dt/dt_Cam_det(\d+)_([^/]+)\.yaml$")
 
 def c_final(nm, f):
     """Final observation as the `fobs` tuple; None when it contains something the model cannot express."""
+    if f.get("load_failed"):
+        return None
     colls = clist(f"({cn(nm(n))}, {CT[t]})" for n, t in f["colls"] if t in CT)
     if any(t not in CT for _, t in f["colls"]):
         return None
@@ -262,32 +277,56 @@ def _names(op):
     return out
 
 
+def _definition(op):
+    """What a registration call asks for (None for other calls): same name + different definition = a type race."""
+    if op[0] == "regrun":
+        return ("coll", op[1], "RUN")
+    if op[0] == "regcoll":
+        return ("coll", op[1], op[2])
+    return None
+
+
 def err_labels(progs, res):
-    """`call=Error` for every call that failed, tagged with the MECHANISM when the step sequence shows one:
-    `@regrun-halfway` = the failed call names a collection for which ANOTHER client's registerRun was between its blocks
-    (collection row committed, run row not yet) while the failed call ran;
-    `@removed-halfway` = the failed call is a registerRun and another client's removeCollection / removeRuns of that name
-    ran between its collection-row block and its run-row block."""
+    """`call=Error` for every call that failed, tagged with the MECHANISM when the executed step sequence shows one (the
+    tags are exactly the mechanisms of the model's completeness theorems, Props/C20.v section 5):
+    `@register-race`   a registerRun / registerCollection refused with a conflict, and ANOTHER client's registration of the same
+                       name with a DIFFERENT collection type committed its insert between this call's pre-read and its sync;
+    `@removed-halfway` a registerRun failed and another client's removeCollection / removeRuns of that name ran between its
+                       collection-row block and its run-row block;
+    `@regrun-halfway`  a put was refused with a conflict while another client's registerRun of its run was between those blocks;
+    `@put-after-query` a removeRuns failed with an integrity error and another client's put into that run committed between
+                       its query block and its removal block."""
     steps = res.get("steps") or []
     out = set()
+    pos = {}
+    for t, st in enumerate(steps):
+        pos.setdefault((st[0], st[1]), []).append(t)
     for ci, (p, oc) in enumerate(zip(progs, res["outcomes"])):
         for oi, (op, o) in enumerate(zip(p, oc)):
             if o[0] != "err":
                 continue
             lab = f"{op[0]}={o[1]}"
-            mine = [t for t, st in enumerate(steps) if st[0] == ci and st[1] == oi]
+            mine = pos.get((ci, oi), [])
+            tag = None
             for cj, q in enumerate(progs):
                 for oj, op2 in enumerate(q):
-                    if cj == ci or len(op2) < 2 or op2[1] not in _names(op):
+                    if cj == ci or len(op2) < 2 or len(op) < 2 or op2[1] != op[1] or not mine:
                         continue
-                    theirs = [t for t, st in enumerate(steps) if st[0] == cj and st[1] == oj]
-                    if op[0] != "regrun" and op2[0] == "regrun" and \
-                            any(sum(1 for x in theirs if x < t) >= 2 and any(x > t for x in theirs) for t in mine):
-                        lab = f"{op[0]}={o[1]}@regrun-halfway"
-                    if op[0] == "regrun" and op2[0] in ("rmcoll", "removerun") and len(mine) >= 3 and \
-                            any(mine[1] < x < mine[-1] for x in theirs):
-                        lab = f"{op[0]}={o[1]}@removed-halfway"
-            out.add(lab)
+                    theirs = pos.get((cj, oj), [])
+                    d1, d2 = _definition(op), _definition(op2)
+                    if o[1] == "Conflict" and d1 and d2 and d1[:2] == d2[:2] and d1[2] != d2[2] and len(mine) >= 2 \
+                            and len(theirs) >= 2 and mine[0] < theirs[1] < mine[-1]:
+                        tag = "register-race"       # their sync (2nd step) lies between my pre-read and my failing sync
+                    if op[0] == "regrun" and o[1] == "SqlIntegrity" and op2[0] in ("rmcoll", "removerun") and len(mine) >= 3 \
+                            and any(mine[1] < x < mine[-1] for x in theirs):
+                        tag = "removed-halfway"
+                    if op[0] == "put" and o[1] == "Conflict" and op2[0] == "regrun" \
+                            and any(sum(1 for x in theirs if x < t) >= 2 and any(x > t for x in theirs) for t in mine):
+                        tag = "regrun-halfway"
+                    if op[0] == "removerun" and o[1] == "SqlIntegrity" and op2[0] == "put" and len(mine) >= 3 \
+                            and any(mine[1] < x < mine[2] for x in theirs):
+                        tag = "put-after-query"
+            out.add(lab + ("@" + tag if tag else ""))
     return sorted(out)
 
 
@@ -339,6 +378,9 @@ def judge(ctx, ps: ProgSet, sched, res, extra_serial):
     if res.get("hang"):
         return f"hang:{kinds}", rep, "a client call never returned under this schedule"
     f = res["final"]
+    if f.get("load_failed"):
+        return f"fresh-butler-cannot-load:{kinds}", rep, \
+            "after this interleaving a fresh Butler cannot load the repository (" + f["load_failed"][:120] + "); every serial order can"
     if f.get("cycle"):
         return "chain-cycle", rep, "the final chain definitions contain a cycle"
     unread = [(run, e) for run, ent in f["data"].items() if not isinstance(ent, str) for e in ent if isinstance(e[1], str)]
@@ -409,8 +451,8 @@ def explore(ctx: Ctx, deep: bool, search: bool = False):
         ps = ProgSet(c["setup"], c["programs"], "corpus:" + c["file"])
         ps.fixed_scheds = c.get("schedules", [])
         sets.append(ps)
-    fams = ["register", "regdt", "put", "assoc", "chain", "removal", "mix"]
-    nsets = (28 if search else (49 if deep else 21))
+    fams = ["register", "regdt", "put", "assoc", "chain", "removal", "mix", "dimgroup"]
+    nsets = (10 if search else (49 if deep else 21))
     for i in range(nsets):
         fam = fams[i % len(fams)]
         setup, progs = gen_family(r, fam)
@@ -450,7 +492,7 @@ def explore(ctx: Ctx, deep: bool, search: bool = False):
                 first[si] = x
     # ---- round 2: more schedules, derived from the executed step sequence of the default schedule
     jobs, meta = [], []
-    cap = 20 if search else (40 if deep else 7)
+    cap = 10 if search else (40 if deep else 7)
     for si, ps in enumerate(sets):
         x = first.get(si)
         if not x or x.get("hang"):
